@@ -418,6 +418,13 @@ class Interp:
             return tuple(self.ev(e, env) for e in n["es"])
         if k == "Array":
             return [self.ev(e, env) for e in n["es"]]
+        if k == "Repeat":
+            m_ = re.search(r"; (\d+)\]$", str(n.get("ty", "")).strip())
+            if m_ and int(m_.group(1)) <= 4096:
+                v_ = self.ev(n["e"], env)
+                if isinstance(v_, (bool, int, float, str)):
+                    return [v_] * int(m_.group(1))
+            raise Undecided("array repeat %s" % render(n))
         if k == "Index":
             base, i = self.ev(n["e"], env), self.ev(n["i"], env)
             if isinstance(base, (list, str)) and isinstance(i, int) and not isinstance(i, bool):
@@ -804,6 +811,11 @@ class Interp:
             if m in ("split_once", "rsplit_once") and isinstance(a, str) and a:
                 i_ = recv.find(a) if m == "split_once" else recv.rfind(a)
                 return some((recv[:i_], recv[i_ + len(a):])) if i_ >= 0 else NONE
+        if isinstance(recv, str) and len(recv) == 1 and m == "encode_utf8" and len(n["args"]) == 1 and str(n["recv"].get("ty", "")).lstrip("&") == "char":
+            self.ev(n["args"][0], env)
+            return recv             # the text of the character (the buffer it is written to is scratch space)
+        if isinstance(recv, str) and len(recv) == 1 and m == "len_utf8" and not n["args"]:
+            return len(recv.encode())
         if isinstance(recv, str) and not n["args"] and len(recv) == 1 and m in CHAR_PREDICATES:
             return CHAR_PREDICATES[m](recv)
         if isinstance(recv, str) and len(n["args"]) == 1 and m in ("trim_matches", "trim_start_matches", "trim_end_matches", "strip_prefix", "strip_suffix", "split", "find", "rfind"):
